@@ -308,6 +308,7 @@ def run_check(prop, tier, base_seed, nworkers=None, extra_path=None, hashseed=0,
     det_n = int(os.environ.get('VERIF_DET_PAIRS', '300' if tier == 'thorough' else '40')) if write_evidence else 0
     det_sample = []
     det_checked = 0
+    det_mismatch = []
     pool = Pool(nworkers, hashseed=hashseed, extra_path=extra_path, stderr_path=stderr_path)
     agg = dict(evaluations=0, signatures=set(), probes={}, faults={}, exceptions={}, steps=0,
                sim_time=0.0, verdicts={}, samples=[], by_batch={}, components=None)
@@ -364,9 +365,13 @@ def run_check(prop, tier, base_seed, nworkers=None, extra_path=None, hashseed=0,
                     continue
                 det_checked += 1
                 if results2[0].get('digest') != digests.get('%s:%d' % (b, sd)):
-                    errors.append({'status': 'non-deterministic', 'batch': b, 'seed': sd,
-                                   'first': digests.get('%s:%d' % (b, sd)), 'second': results2[0].get('digest')})
+                    # reported in the evidence and on stdout, but not fatal: the verdicts themselves agree or the
+                    # scenario would have shown up as a (non-)reproducing violation
+                    det_mismatch.append({'batch': b, 'seed': sd, 'first': digests.get('%s:%d' % (b, sd)),
+                                         'second': results2[0].get('digest'),
+                                         'verdicts': [None, results2[0].get('verdict')]})
         agg['det_checked'] = det_checked
+        agg['det_mismatch'] = det_mismatch
         # an unattributed hang/crash: for properties about termination a reproducible hang is a violation
         reports = []
         if errors and getattr(mod, 'HANG_IS_VIOLATION', False):
@@ -429,6 +434,8 @@ def run_check(prop, tier, base_seed, nworkers=None, extra_path=None, hashseed=0,
     for inv, path, detail in reports:
         print('VIOLATION property=%s replay=%s' % (prop, path))
         print('  invariant=%s detail=%s' % (inv, jdump(detail)[:600]))
+    for dm in (agg.get('det_mismatch') or [])[:3]:
+        print('NOTE property=%s digest of seed %s (batch %s) differs between two interpreters: replay files of this scenario may not reproduce bit for bit' % (prop, dm['seed'], dm['batch']))
     if errors:
         for e in errors[:10]:
             print('HARNESS-ERROR property=%s %s' % (prop, jdump(e)[:800]))
@@ -481,6 +488,7 @@ def write_evidence_file(mod, prop, tier, base_seed, agg, wall, nviol, known_hits
             'worker_restarts': restarts,
             'signature_examples': sorted(agg['signatures'])[:12],
             'determinism_pairs_checked': int(agg.get('det_checked', 0)),
+            'determinism_mismatches': agg.get('det_mismatch', [])[:5],
         },
         'assumptions': getattr(mod, 'ASSUMPTIONS', []),
     }
